@@ -1,21 +1,28 @@
 #!/bin/bash
-# usage: tools/regress_seeded.sh [id-glob]        (default: all of /verif/seeded/*)
+# usage: tools/regress_seeded.sh [-j N] [id-glob]        (default: all of /verif/seeded/*, one at a time)
 # Re-runs every seeded change against the check of the property it was written for (scratch worktree, VERIF_REPO; /repo is
-# never touched) and prints one line per change:  <id> <property> REPORTED|MISSED [class of the first replay].
+# never touched) and prints one line per change:  <id> <property> REPORTED|MISSED|NOT-A-VIOLATION [class of the first replay].
 # Used after changes to generators / drivers to make sure nothing that was reported before is lost.
 cd "$(dirname "$0")/.."
+J=1
+if [ "$1" = "-j" ]; then J="$2"; shift 2; fi
 pat="${1:-*}"
-for d in seeded/$pat/; do
+one() {
+  d="$1"
   id=$(basename "$d")
   prop=${id%%-*}
-  [ -f "$d/patch.diff" ] || continue
+  [ -f "$d/patch.diff" ] || return
   out=$(tools/try_mutation.sh "$PWD/$d/patch.diff" "$prop" 2>&1)
+  nav=""
+  grep -q '"not_a_violation"' "$d/meta.json" 2>/dev/null && nav=" (judged not a violation)"
   if echo "$out" | grep -q "VIOLATION property=$prop"; then
     cls=$(echo "$out" | grep -m1 "VIOLATION property=$prop" | sed -E 's/.*replays\/[^-]*-[0-9]+-//; s/\.json//')
-    echo "$id $prop REPORTED $cls"
+    echo "$id $prop REPORTED $cls$nav"
   elif echo "$out" | grep -q "INFRA"; then
     echo "$id $prop INFRA-ERROR"
   else
-    echo "$id $prop MISSED"
+    echo "$id $prop MISSED$nav"
   fi
-done
+}
+export -f one
+ls -d seeded/$pat/ | xargs -P "$J" -I{} bash -c 'one {}'
